@@ -46,11 +46,12 @@ static Verdict run(const Case &c) {
     } else {
         uint64_t now = 100, last = 100;
         int st = 1, changes = 0, timeouts = 0;
+        int tm1[4]; for (int s0 = 0; s0 < 4; s0++) tm1[s0] = br_aut_timeout(a, s0);   // read once, from the fresh automaton
         for (size_t i = 0; i < c.ops.size() && v.ok; i++) {
             const Op &op = c.ops[i];
             if (op.kind == 2) { now += (uint64_t)std::max<int64_t>(0, std::min<int64_t>(op.arg(0), 100)); vp_set_now_ms(now * 1000); continue; }
             if (op.kind != 1) continue;
-            int e = (int)(op.arg(0) & 7), t = br_aut_timeout(a, st);
+            int e = (int)(op.arg(0) & 7), t = tm1[st];
             int got = br_switch_session(a, e);
             if (t != 0 && (int64_t)(now - last) > t) {
                 timeouts++;
@@ -82,6 +83,8 @@ static Verdict run_multi(const Case &c) {
     void *a[3] = {nullptr, nullptr, nullptr};
     int st[3]; uint64_t last[3];
     for (int i = 0; i < k; i++) { a[i] = br_init_session(); st[i] = 1; last[i] = now; }
+    int tm0[4];   // the timeouts of a freshly built automaton: they are part of the table, not something a history may change
+    for (int s0 = 0; s0 < 4; s0++) tm0[s0] = br_aut_timeout(a[0], s0);
     int changes = 0, timeouts = 0, others_active = 0, replaced = 0;
     for (size_t i = 0; i < c.ops.size() && v.ok; i++) {
         const Op &op = c.ops[i];
@@ -99,7 +102,7 @@ static Verdict run_multi(const Case &c) {
             continue;
         }
         if (op.kind != 1) continue;
-        int e = (int)(op.arg(0) & 7), t = br_aut_timeout(a[x], st[x]);
+        int e = (int)(op.arg(0) & 7), t = tm0[st[x]];
         uint64_t el = now - last[x];
         int got = br_switch_session(a[x], e);
         bool must_expire = t != 0 && el >= (uint64_t)(t + 1) * 1000, may_expire = t != 0 && el > (uint64_t)t * 1000;
